@@ -612,7 +612,8 @@ func (w *world) get(t *tr.W, target int, th chainhash.Hash, regular bool, batch 
 		case strings.Contains(cr.err.Error(), "unknown filter type"):
 			res = "err:type"
 		case strings.Contains(cr.err.Error(), "unable to get header for start") ||
-			strings.Contains(cr.err.Error(), "block headers, got") || strings.Contains(cr.err.Error(), "ancestors for stopHash"):
+			strings.Contains(cr.err.Error(), "block headers, got") || strings.Contains(cr.err.Error(), "ancestors for stopHash") ||
+			strings.Contains(cr.err.Error(), "is not committed yet"):
 			res = "err:prepare"
 		default:
 			res = "err:other(" + strings.ReplaceAll(cr.err.Error(), " ", "_") + ")"
@@ -752,8 +753,10 @@ func runCase(t *tr.W, r *rand.Rand, mode string) {
 		if target > uniBlocks {
 			target = uniBlocks
 		}
-		if target > u.ftip+2 {
-			target = u.ftip + 2 // further beyond the filter tip the header fetch allocates gigabytes
+		if u.ftip < uniBlocks && r.Intn(8) == 0 {
+			// a stored block whose filter header is not committed yet: must fail at preparation
+			target = u.ftip + 1 + r.Intn(uniBlocks-u.ftip)
+			t.Hit("cf.target.above-ftip")
 		}
 		known := true
 		var th chainhash.Hash
